@@ -545,6 +545,10 @@ def run(chk: Check) -> None:
     rule_m3_cut(chk)
     rule_m4(chk)
     rule_m5(chk, mach)
+    from .c03 import fingerprint_definition
+
+    chk.rule("M3f", "the fingerprint the chain is consulted with is a pure function of the presented certificate: sha256 over its DER encoding, no state between calls (= C03.T4)")
+    fingerprint_definition(chk, "M3f")
     chk.trusted = ["CPython ast parser", "engine CFG / inliner / path pruning", "asyncio runs done-callbacks after the task finished"]
     chk.assumptions = [
         "an event loop is running whenever a protocol callback runs (M1b separately proves the no-loop fallbacks cannot admit)",
